@@ -148,7 +148,20 @@ pub struct InprocCase {
 
 const ERRNOS: [i32; 6] = [libc::EIO, libc::EINTR, libc::ENOSYS, libc::EFAULT, libc::EPERM, libc::EAGAIN];
 
-const BIG_LENGTHS: [u64; 19] = [
+const BIG_LENGTHS: [u64; 31] = [
+    // values that collapse onto a supported length when narrowed to 8, 16 or 32 bits
+    256 + 12,
+    256 + 15,
+    256 + 18,
+    256 + 21,
+    256 + 24,
+    512 + 12,
+    65536 + 12,
+    65536 + 24,
+    (1 << 32) + 12,
+    (1 << 32) + 24,
+    (1 << 63) + 12,
+    (1 << 63) + 24,
     41,
     42,
     45,
@@ -282,8 +295,12 @@ type RandomOut = Result<(String, String, usize), String>;
 fn call_random(length: usize, outcomes: Vec<Outcome>, default: Outcome) -> (Result<RandomOut, String>, Vec<crate::entropy::Call>) {
     with_script(outcomes, default, || {
         catch(|| {
-            Mnemonic::random(Language::English, length)
-                .map(|m| (m.to_phrase(), m.to_string(), m.mnemonic_length()))
+            // (the conversion keeps the harness compiling if the parameter type is narrowed; a length the
+            // parameter type cannot express can only be refused)
+            #[allow(irrefutable_let_patterns)]
+            let Ok(n) = length.try_into() else { return Err("length not expressible in the parameter type".to_string()) };
+            Mnemonic::random(Language::English, n)
+                .map(|m| (m.to_phrase(), m.to_string(), m.mnemonic_length() as usize))
                 .map_err(|e| format!("{e:#}"))
         })
     })
@@ -547,6 +564,9 @@ pub struct Shim {
     pub ge_seed: Option<u64>,
     /// GE_FAIL_FROM
     pub fail_from: Option<u64>,
+    /// GE_FAIL_AT (only this request fails)
+    #[serde(default)]
+    pub fail_at: Option<u64>,
 }
 
 struct Run {
@@ -567,6 +587,9 @@ fn run_hdwallet(args: &[String], shim: &Shim, timeout: Duration) -> Result<Run, 
         }
         if let Some(k) = shim.fail_from {
             inv = inv.env("GE_FAIL_FROM", k.to_string());
+        }
+        if let Some(k) = shim.fail_at {
+            inv = inv.env("GE_FAIL_AT", k.to_string());
         }
         log_path = Some(lp);
     }
@@ -813,26 +836,26 @@ fn new_cases(ctx: &Ctx, seeds_per_length: u64, big_seeds: u64) -> Vec<NewCase> {
         ctr += 1;
         ctx.sub_seed(tag, ctr)
     };
-    let seeded = |s: u64| Shim { preload: true, ge_seed: Some(s), fail_from: None };
+    let seeded = |s: u64| Shim { preload: true, ge_seed: Some(s), fail_from: None, fail_at: None };
     // every length 0..=40 x shim seeds, `-n L`
     for l in 0..=40u64 {
         for _ in 0..seeds_per_length {
             v.push(new_case(Some(l), "-n L", seeded(seed("new"))));
         }
         // failure at the first (only) request
-        v.push(new_case(Some(l), "-n L", Shim { preload: true, ge_seed: Some(seed("new")), fail_from: Some(0) }));
+        v.push(new_case(Some(l), "-n L", Shim { preload: true, ge_seed: Some(seed("new")), fail_from: Some(0), fail_at: None }));
     }
     for l in bip39::LENGTHS {
         let l = l as u64;
         for _ in 0..big_seeds {
             // failure at request 0 with other seeds, failure only after the last request, other spellings
-            v.push(new_case(Some(l), "-n L", Shim { preload: true, ge_seed: Some(seed("new")), fail_from: Some(0) }));
-            v.push(new_case(Some(l), "-n L", Shim { preload: true, ge_seed: Some(seed("new")), fail_from: Some(1) }));
+            v.push(new_case(Some(l), "-n L", Shim { preload: true, ge_seed: Some(seed("new")), fail_from: Some(0), fail_at: None }));
+            v.push(new_case(Some(l), "-n L", Shim { preload: true, ge_seed: Some(seed("new")), fail_from: Some(1), fail_at: None }));
             for sp in ["-nL", "--length L", "--length=L", "-n=L"] {
                 v.push(new_case(Some(l), sp, seeded(seed("new"))));
             }
             // the real source, observed through the shim
-            v.push(new_case(Some(l), "-n L", Shim { preload: true, ge_seed: None, fail_from: None }));
+            v.push(new_case(Some(l), "-n L", Shim { preload: true, ge_seed: None, fail_from: None, fail_at: None }));
         }
     }
     for l in BIG_LENGTHS {
@@ -842,7 +865,7 @@ fn new_cases(ctx: &Ctx, seeds_per_length: u64, big_seeds: u64) -> Vec<NewCase> {
     }
     for _ in 0..big_seeds.max(2) {
         v.push(new_case(None, "default", seeded(seed("new"))));
-        v.push(new_case(None, "default", Shim { preload: true, ge_seed: Some(seed("new")), fail_from: Some(0) }));
+        v.push(new_case(None, "default", Shim { preload: true, ge_seed: Some(seed("new")), fail_from: Some(0), fail_at: None }));
     }
     for t in [
         "+12", "012", "0012", " 12", "12 ", "0x0c", "0xc", "1_2", "12.0", "1e1", "-1", "-0", "", "twelve", "\u{661}\u{662}", "\u{ff11}\u{ff12}",
@@ -892,7 +915,7 @@ fn judge_vanity(c: &VanityCase, cls: &mut Classifier) -> Verdict {
     if skip_after_timeouts(cls) {
         return Ok(());
     }
-    let shim = Shim { preload: true, ge_seed: Some(c.ge_seed), fail_from: c.fail_from };
+    let shim = Shim { preload: true, ge_seed: Some(c.ge_seed), fail_from: c.fail_from, fail_at: None };
     let r = run_hdwallet(&c.args, &shim, VANITY_TIMEOUT)?;
     if r.out.timed_out {
         timed_out(cls);
@@ -1045,7 +1068,7 @@ fn judge_real(c: &RealCase, cls: &mut Classifier) -> Verdict {
         return Ok(());
     }
     let args = vec!["new".to_string(), "-n".to_string(), refimpl_dec(c.length)];
-    let shim = Shim { preload: c.logged, ge_seed: None, fail_from: None };
+    let shim = Shim { preload: c.logged, ge_seed: None, fail_from: None, fail_at: None };
     let mut seen: Vec<String> = vec![];
     for run in 0..c.runs {
         if run > 0 {
@@ -1118,8 +1141,76 @@ fn premise_to_inconclusive(ctx: &mut Ctx) {
     }
 }
 
+// ---------------------------------------------------------------- transient failure during a concurrent search
+
+/// `new --vanity-prefix 0x<3 digits> -j N` (N >= 2) where exactly ONE entropy request (index k >= 1) fails.
+/// The source reported a failure, so the search must end with an error - unless a match had already been
+/// found. Schedule-independent oracle: a printed phrase is accepted when its block was requested before
+/// the failing request (the match preceded the failure) and tolerated when it was requested at most
+/// TRANSIENT_MARGIN requests after it (workers that were already running when the failure was reported);
+/// a phrase from a later block means the search went on after the failure and is a violation.
+#[derive(Clone, Debug, Serialize, Deserialize)]
+pub struct TransientCase {
+    pub digits: String,
+    pub threads: usize,
+    pub ge_seed: u64,
+    pub fail_at: u64,
+}
+
+const TRANSIENT_MARGIN: u64 = 400;
+
+fn judge_transient(c: &TransientCase, cls: &mut Classifier) -> Verdict {
+    if TIMEOUTS.load(Ordering::SeqCst) >= MAX_TIMEOUTS {
+        cls.label(L_SKIPPED);
+        return Ok(());
+    }
+    let args: Vec<String> = ["new", "--vanity-prefix", &format!("0x{}", c.digits), "-j", &c.threads.to_string()].iter().map(|s| s.to_string()).collect();
+    let shim = Shim { preload: true, ge_seed: Some(c.ge_seed), fail_from: None, fail_at: Some(c.fail_at) };
+    let r = run_hdwallet(&args, &shim, Duration::from_secs(120))?;
+    if r.out.timed_out {
+        timed_out(cls);
+        return Ok(());
+    }
+    if r.out.panicked() {
+        return fail("a phrase or an ordinary error", r.out.describe(), format!("{}: panic / abnormal end", r.shown));
+    }
+    let failed = r.calls.iter().any(|x| x.index == c.fail_at && x.delivered.is_none());
+    if !failed {
+        // the search ended before the failing request was made
+        cls.label("vanity-transient:failure-not-reached");
+        return Ok(());
+    }
+    if r.out.ordinary_error() && r.out.stdout.is_empty() {
+        cls.label("vanity-transient:error");
+        cls.nontrivial(&(c.digits.as_str(), c.threads, c.ge_seed, c.fail_at));
+        return Ok(());
+    }
+    let Some(phrase) = printed_phrase(&r.out).filter(|_| r.out.ok()) else {
+        return fail("one phrase line or an ordinary error with empty stdout", r.out.describe(), format!("{}: malformed outcome", r.shown));
+    };
+    let Ok(entropy) = bip39::decode_phrase(&phrase) else {
+        return fail("a valid phrase", phrase, format!("{}: printed phrase is not valid", r.shown));
+    };
+    let Some(block) = r.calls.iter().find(|x| x.delivered.as_deref() == Some(&entropy[..])) else {
+        return fail("entropy of one logged request", phrase, format!("{}: printed phrase does not come from the source; log {}", r.shown, describe_log(&r.calls)));
+    };
+    if block.index < c.fail_at {
+        cls.label("vanity-transient:match-before-failure");
+        return Ok(());
+    }
+    if block.index <= c.fail_at + TRANSIENT_MARGIN {
+        cls.unspecified("vanity-transient:match-shortly-after-failure");
+        return Ok(());
+    }
+    fail(
+        "an error: the entropy source reported a failure",
+        format!("exit 0 with a phrase from request #{} ({} requests after the failed request #{})", block.index, block.index - c.fail_at, c.fail_at),
+        format!("{}: the search went on after a failed entropy request and printed a phrase", r.shown),
+    )
+}
+
 pub fn run(ctx: &mut Ctx) {
-    ctx.rule = "Fault injection at getentropy. In-process (symbol exported by the harness binary, per-call script and log): Mnemonic::random for every length 0..=40 and large values x source scripts {uniform, all-0, all-1, counter, single bit set/clear, period-2, short cycle, one bit different from the previous delivery; failure with EIO/EINTR/ENOSYS/...}, single and consecutive generations (each case preceded by one unjudged priming generation per length, so that state carried between generations shows within the case). Executable (LD_PRELOAD shim, PRF stream of (GE_SEED, request index), request log, GE_FAIL_FROM): `new -n L` for every L in 0..=40 x shim seeds, failure at request 0, other spellings of the option, the real source observed through the shim; vanity searches `--vanity-prefix 0x<digit>` with -j 0 and -j 1 and failure from request k for every k in 0..=24, unfailed searches with -j 0/1/2/3/16, failures in concurrent searches; repeated invocations on the real source with and without the shim. Oracle: supported L -> Ok / exit 0, the bytes requested are exactly 4L/3 and the phrase is the reference BIP-39 encoding (own word list, bit-string checksum) of exactly the delivered bytes, mnemonic_length = L, the phrase parses back (Mnemonic::from_phrase / `address --mnemonic`); unsupported L -> Err / error exit with empty stdout; injected failure -> Err / error exit with empty stdout, no panic; sequential vanity search with failure from k -> the reference (PBKDF2 -> BIP-32 m/44'/60'/0'/0/0 -> secp256k1 -> Keccak address, all independent) determines the first of the k delivered blocks whose address has the prefix: exactly that phrase is printed, or an error if none; concurrent search -> printed phrase encodes one delivered block; real source -> valid, pairwise distinct, equal to the logged bytes. Non-trivial: every case except all-zero entropy with L = 12; distinct by (L, delivered bytes | failure point | shim seed).".into();
+    ctx.rule = "Fault injection at getentropy. In-process (symbol exported by the harness binary, per-call script and log): Mnemonic::random for every length 0..=40 and large values x source scripts {uniform, all-0, all-1, counter, single bit set/clear, period-2, short cycle, one bit different from the previous delivery; failure with EIO/EINTR/ENOSYS/...}, single and consecutive generations (each case preceded by one unjudged priming generation per length, so that state carried between generations shows within the case). Executable (LD_PRELOAD shim, PRF stream of (GE_SEED, request index), request log, GE_FAIL_FROM): `new -n L` for every L in 0..=40 x shim seeds, failure at request 0, other spellings of the option, the real source observed through the shim; vanity searches `--vanity-prefix 0x<digit>` with -j 0 and -j 1 and failure from request k for every k in 0..=24, unfailed searches with -j 0/1/2/3/16, failures in concurrent searches, one transient failure (GE_FAIL_AT) during a concurrent 3-digit search (error required unless the match preceded the failure; a phrase from a block requested more than 400 requests after the failure is a violation); repeated invocations on the real source with and without the shim. Oracle: supported L -> Ok / exit 0, the bytes requested are exactly 4L/3 and the phrase is the reference BIP-39 encoding (own word list, bit-string checksum) of exactly the delivered bytes, mnemonic_length = L, the phrase parses back (Mnemonic::from_phrase / `address --mnemonic`); unsupported L -> Err / error exit with empty stdout; injected failure -> Err / error exit with empty stdout, no panic; sequential vanity search with failure from k -> the reference (PBKDF2 -> BIP-32 m/44'/60'/0'/0/0 -> secp256k1 -> Keccak address, all independent) determines the first of the k delivered blocks whose address has the prefix: exactly that phrase is printed, or an error if none; concurrent search -> printed phrase encodes one delivered block; real source -> valid, pairwise distinct, equal to the logged bytes. Non-trivial: every case except all-zero entropy with L = 12; distinct by (L, delivered bytes | failure point | shim seed).".into();
     ctx.assumptions = vec![
         "hdwallet obtains entropy only through libc getentropy (symbol interposition sees every request; Rust std does not call getentropy on Linux)".into(),
         "every -1 return of getentropy counts as the source reporting failure (EINTR included): a generation that still returns a phrase after a failed request is reported".into(),
@@ -1133,7 +1224,7 @@ pub fn run(ctx: &mut Ctx) {
     // ---- in-process
     let sweep = inproc_sweep(ctx, t.pick(30, 600));
     ctx.run_cases("lengths", &sweep, judge_inproc);
-    ctx.exhaustive_parts.push("in-process: every requested length 0..=40 (and 19 large values up to usize::MAX) x the fixed script kinds".into());
+    ctx.exhaustive_parts.push("in-process: every requested length 0..=40 (and 31 large values up to usize::MAX, incl. values congruent to a supported length modulo 2^8, 2^16, 2^32, 2^63) x the fixed script kinds".into());
     ctx.run_prop("script", t.pick(5000, 200_000), inproc_strategy, judge_inproc);
 
     for l in bip39::LENGTHS {
@@ -1164,6 +1255,24 @@ pub fn run(ctx: &mut Ctx) {
 
     let vo = vanity_other_cases(ctx, t.pick(3, 100));
     ctx.run_cases("vanity", &vo, judge_vanity);
+
+    // one transient failure during a concurrent 3-digit search (run one at a time: each uses several cores)
+    let mut tr = vec![];
+    for i in 0..t.pick(6, 60) as u64 {
+        let mut p = Prng::new(ctx.sub_seed("vanity-transient", i));
+        tr.push(TransientCase {
+            digits: format!("{:03x}", p.below(4096)),
+            threads: [2usize, 3, 16][(i % 3) as usize],
+            ge_seed: p.next_u64() >> 1,
+            fail_at: 1 + p.below(12),
+        });
+    }
+    for c in tr.chunks(1) {
+        ctx.run_cases("vanity-transient", c, judge_transient);
+    }
+    if TIMEOUTS.load(Ordering::SeqCst) == 0 {
+        ctx.floor_abs("vanity-transient:error", 3);
+    }
 
     let mut reals = vec![];
     for l in bip39::LENGTHS {
@@ -1215,6 +1324,7 @@ fn replay_inner(sub: &str, case: &Value) -> Option<Verdict> {
         "lengths" | "script" => go!(InprocCase, judge_inproc),
         "new" => go!(NewCase, judge_new),
         "vanity-fail" | "vanity" => go!(VanityCase, judge_vanity),
+        "vanity-transient" => go!(TransientCase, judge_transient),
         "real" => go!(RealCase, judge_real),
         _ => None,
     }
